@@ -163,7 +163,7 @@ def mut_class(m):
 
 # ----------------------------------------------------------------------------- running a read
 
-STEP_LIMIT = 40000
+STEP_LIMIT = 12000
 
 
 class Recorder:
@@ -520,9 +520,9 @@ def run(ctx):
             run_campaign(ctx, cs["file"], cs.get("mi", 0) + 1, cs["seed"])
         return
     run_offsets(ctx)
-    nfiles = ctx.budget(9, 60)
-    per = ctx.budget(38, 220)
+    nfiles = ctx.budget(12, 60)
+    per = ctx.budget(70, 220)
     for i in range(nfiles):
         run_campaign(ctx, i, per, ctx.rng.randrange(1 << 30))
-    for i in range(ctx.budget(5, 30)):
-        run_k1(ctx, i, ctx.budget(36, 200), ctx.rng.randrange(1 << 30))
+    for i in range(ctx.budget(6, 30)):
+        run_k1(ctx, i, ctx.budget(60, 200), ctx.rng.randrange(1 << 30))
